@@ -70,6 +70,11 @@ def check_arrays(z, aot, nmodes, sizes):
         for i, j in enumerate(lst):
             if not np.array_equal(sub[i], full[j - 1]):
                 return [("zernikeArray:list-vs-count", dict(N=N, j=j, position=i))]
+        for j in range(1, min(nmodes, 12) + 1):           # an index list may have a single element (list, tuple, array)
+            for one in ([j], (j,), np.array([j])):
+                g1 = np.asarray(z.zernikeArray(one, N))
+                if g1.shape != (1, N, N) or not np.array_equal(g1[0], full[j - 1]):
+                    return [("zernikeArray:list-vs-count:single-element-list", dict(N=N, j=j, shape=list(g1.shape)))]
         for norm in ("p2v", "rms"):
             arr = np.asarray(z.zernikeArray(nmodes, N, norm=norm))
             sub = np.asarray(z.zernikeArray(lst, N, norm=norm))
